@@ -27,6 +27,7 @@ PROPS = {
     'C01': ['dispatch'],
     'C02': ['dispatch'],
     'C03': ['dispatch'],
+    'C04': ['bind'],
     'C11': ['dispatch'],
     'C12': ['dispatch'],
     'C05': ['msg'],
